@@ -44,6 +44,8 @@ def coerce(cls: Type[T], data: Any) -> T:
         else:
             raise bad_type(data, cls)
     elif cls in (int, float):
+        if isinstance(data, bool):  # a boolean is not a number (True would give 1.0)
+            raise bad_type(data, cls)
         try:
             return cls(data)  # type: ignore
         except (ValueError, TypeError, OverflowError):
